@@ -207,7 +207,7 @@ func c20Pass(r *rand.Rand) []byte {
 func TestC20(t *testing.T) {
 	m := mon.New(t, "C20")
 	defer m.Done()
-	m.Rule("streams: (simple-salted) modes 0/1 × 7 hash ids × key sizes {1,16,20,21,32,33,64,65,128,129} as a forced grid, then random 1..64, passphrases 0..100 weighted to hash-padding edges; (iterated) every coded count byte (quick: all 176 bytes with count ≤ 2 MiB for each hash plus 9 larger ones up to 0xff = 65 011 712 octets; thorough: all 256 × 7 hashes, ×3 below 4 MiB), key sizes from the set (one context above 1 MiB except 1 in 8), passphrases 0..100; (short-count) coded counts 0..20 with passphrases of count−8+{−2..2} and up to 3×count octets, where the RFC requires the whole salt‖passphrase to be hashed once; (serialize) s2k.Serialize under nil and explicit Configs → Parse → same key as Serialize wrote and as the ref derives from the emitted specifier; (unsupported) all 249 hash ids outside RFC 4880 §9.4's {1,2,3,8,9,10,11} × modes {0,1,3} must make Parse fail. Every valid case: s2k.Parse(spec‖random trailing bytes) then f(out, passphrase) compared with an RFC 4880 §3.7.1 executable spec (explicit message construction, one-shot hashes) and libgcrypt gcry_kdf_derive; 1 in 4 cases call f a second time with other arguments. distinct key = (stream, mode, hash, number of contexts, count exponent, count<len flag, passphrase length class); non-trivial = a key comparison was made or an expected error observed. Cross-cutting monitors: the last 8 output buffers are re-verified after every later call, one of the last 8 returned functions (cheap ones) is re-invoked after every later Parse and must give its old key, passphrases carry sentinel spare capacity and must be unchanged, the capacity behind the output buffer must be untouched")
+	m.Rule("streams: (simple-salted) modes 0/1 × 7 hash ids × key sizes {1,16,20,21,32,33,64,65,128,129} as a forced grid, then random 1..64, passphrases 0..100 weighted to hash-padding edges; (iterated) every coded count byte (quick: all 176 bytes with count ≤ 2 MiB for each hash plus 9 larger ones up to 0xff = 65 011 712 octets; thorough: all 256 × 7 hashes, ×3 below 4 MiB), key sizes from the set (one context above 1 MiB except 1 in 8), passphrases 0..100; (short-count) coded counts 0..20 with passphrases of count−8+{−2..2} and up to 3×count octets, where the RFC requires the whole salt‖passphrase to be hashed once; (serialize) s2k.Serialize under nil and explicit Configs → Parse → same key as Serialize wrote and as the ref derives from the emitted specifier; (unsupported) all 249 hash ids outside RFC 4880 §9.4's {1,2,3,8,9,10,11} × modes {0,1,3} must make Parse fail. Every valid case: s2k.Parse(spec‖random trailing bytes) then f(out, passphrase) compared with an RFC 4880 §3.7.1 executable spec (explicit message construction, one-shot hashes) and libgcrypt gcry_kdf_derive; 1 in 4 cases call f a second time with other arguments. distinct key = (stream, mode, hash, number of contexts, count exponent, count<len flag, passphrase length class); non-trivial = a key comparison was made or an expected error observed. (concurrent) 6 goroutines released from a barrier each Parse (through a yielding reader) and run their own returned function, or call Simple/Salted/Iterated with their own hash.Hash, then Serialize through yielding reader/writer — three goroutines with the same specifier and passphrase slices, three with their own; results precomputed from the ref and judged after the join; one case in four under GOMAXPROCS(1); the same stream alone is run in a -race build. Cross-cutting monitors: the last 8 output buffers are re-verified after every later call, one of the last 8 returned functions (cheap ones) is re-invoked after every later Parse and must give its old key, passphrases carry sentinel spare capacity and must be unchanged, the capacity behind the output buffer must be untouched")
 	m.Assume("ref/s2kref is validated by hashlib-computed vectors and a libgcrypt grid in its unit test; it uses the Go standard library MD5/SHA-1/SHA-2 one-shot functions (trusted primitives; s2k uses the same through crypto.Hash) and ref/md4rmd's RIPEMD-160 (independent of x/crypto/ripemd160); libgcrypt 1.10 (GnuPG's S2K) is the fully independent witness and refuses empty passphrases")
 	m.Assume("specifier types other than 0, 1, 3 and truncated specifiers are outside the statement: observed (counters) but not judged")
 
@@ -215,6 +215,14 @@ func TestC20(t *testing.T) {
 	nk := len(c20KeySizes)
 	c20Ret = newRetMon(m, 8)
 	c20Funcs = nil
+	if mon.RaceBuild {
+		// race-detector variant: only the shared-value concurrency stream
+		c20Concurrent(m)
+		concGates(m, c20ConcN(m))
+		return
+	}
+	c20Concurrent(m)
+	concGates(m, c20ConcN(m))
 
 	// ---------- simple and salted ----------
 	m.Cases("simple-salted", m.N(2100, 42000), func(i int64, r *rand.Rand) {
